@@ -68,7 +68,20 @@ def _plan(draw, max_rows):
         hx["args"]["q"] = draw(st.sampled_from([0, 0.25, 0.5, 0.9, 1]))
     if h in ("std", "var") and draw(st.booleans()):
         hx["args"]["ddof"] = draw(st.sampled_from([0, 1]))
-    return {"frame": {"n": n, "cols": cols}, "by": [f"g{j}" for j in draw(st.permutations(range(nk)))], "hx": hx}
+    plan = {"frame": {"n": n, "cols": cols}, "by": [f"g{j}" for j in draw(st.permutations(range(nk)))], "hx": hx}
+    if n and n <= 40 and draw(st.integers(0, 3)) == 0:
+        edits = []
+        for _ in range(draw(st.integers(1, 3))):
+            j = draw(st.integers(0, nk - 1))
+            kind = next(c["kind"] for c in cols if c["name"] == plan["by"][j])
+            if kind == "u":
+                continue
+            # another value of the column (moves the row to another group) or a fresh one from the pool
+            colvals = next(c["vals"] for c in cols if c["name"] == plan["by"][j])
+            edits.append([j, draw(st.integers(0, n - 1)), draw(st.one_of(st.sampled_from(colvals), gen.value(kind, "tight")))])
+        if edits:
+            plan["edits"] = edits
+    return plan
 
 
 def strategy(tier):
@@ -115,11 +128,38 @@ def _ints(a):
     return [int(x) for x in np.asarray(a)]
 
 
+_PHASE = [""]
+
+
+class Violation(Violation):                    # prefixes the phase to every message of this module
+    def __init__(self, what, **detail):
+        super().__init__(_PHASE[0] + what, **detail)
+
+
 def check(plan, ctx):
+    data = build.frame(plan["frame"])
+    _check_once(plan, data, ctx)
+    if plan.get("edits") and plan["frame"]["n"]:
+        # history: cells of a group column of the same frame object are overwritten in place, then every grouped
+        # operation runs again: whatever was remembered about the old partition is out of date
+        p2 = dict(plan, frame={"n": plan["frame"]["n"], "cols": [dict(c, vals=list(c["vals"])) for c in plan["frame"]["cols"]]})
+        for j, row, v in plan["edits"]:
+            c = next(c for c in p2["frame"]["cols"] if c["name"] == plan["by"][j % len(plan["by"])])
+            row %= p2["frame"]["n"]
+            c["vals"][row] = v if v is not None or c["kind"] not in ("f", "f32", "s", "u", "i", "b", "i8", "u8", "i32") else c["vals"][0]
+            data[c["name"]][row] = build.np_array(c["kind"], [c["vals"][row]])[0]
+        ctx.cls("grouped_again_after_in_place_edit_of_a_group_column")
+        _PHASE[0] = "after an in-place edit of a group column: "
+        try:
+            _check_once(p2, data, ctx)
+        finally:
+            _PHASE[0] = ""
+
+
+def _check_once(plan, data, ctx):
     fp = plan["frame"]
     n = fp["n"]
     by = plan["by"]
-    data = build.frame(fp)
     src = build.table(data)
     before = build.snap_frame(data)
     gs, kc = _groups_sorted(plan)
